@@ -1,4 +1,5 @@
 pub mod cmp;
 pub mod cmp_packet;
 pub mod entries;
+pub mod iterlaws;
 pub mod walk;
